@@ -211,6 +211,27 @@ fn huge_chunk_cases(seed: u64, thorough: bool, st: &mut Stats) {
 }
 
 /// Suite `clihuge` (C01)
+fn big_header_case(seed: u64, st: &mut Stats) {
+    let mut rng = Rng::new(seed ^ 0x9b);
+    let s = Scn::new("bh", 0);
+    let src = gen_data(&mut rng, 300_000).0;
+    let meta: Vec<u8> = (0..1_600_000).map(|_| rng.next() as u8).collect();
+    s.write("src.bin", &src);
+    s.write("meta.bin", &meta);
+    let (c1, l1) = s.bita(&["compress", "-i", "src.bin", "--metadata-file", "blob", "meta.bin", "--hash-length", "32", "big.cba"], None, &[]);
+    st.evaluations += 1;
+    st.oracle_checks += 1;
+    st.count("clirt/header-over-1MiB");
+    let line = "clirt big-header";
+    if c1 != 0 { st.violation("C11", &format!("compress with a 1.6 MB metadata value fails: {}", l1.lines().last().unwrap_or("")), line); return; }
+    let (c2, l2) = s.bita(&["info", "big.cba"], None, &[]);
+    if c2 != 0 || !l2.contains("Chunk hash length: 32 bytes") || !l2.contains("blob(1600000)") { st.violation("C11", &format!("bita info on an archive with a header over 1 MiB: exit {} {}", c2, l2.lines().last().unwrap_or("")), line); }
+    let o = std::process::Command::new(bita_bin()).args(["info", "--metadata-key", "blob", "big.cba"]).current_dir(&s.dir).output();
+    if !matches!(o, Ok(ref x) if x.status.success() && x.stdout == meta) { st.violation("C11", "the 1.6 MB metadata value is not reported back", line); }
+    let (c3, _) = s.bita(&["clone", "big.cba", "out.bin"], None, &[]);
+    if c3 != 0 || s.read("out.bin").as_deref() != Some(&src[..]) { st.violation("C01", "an archive with a header over 1 MiB is not cloned back to its source", line); }
+}
+
 pub fn suite_clihuge(dir: &str, seed: u64, thorough: bool, st: &mut Stats) {
     let out = SuiteOut::new(dir, "clihuge");
     huge_chunk_cases(seed, thorough, st);
@@ -218,6 +239,7 @@ pub fn suite_clihuge(dir: &str, seed: u64, thorough: bool, st: &mut Stats) {
 }
 
 pub fn suite_clirt(dir: &str, seed: u64, thorough: bool, st: &mut Stats) {
+    big_header_case(seed, st);
     let mut out = SuiteOut::new(dir, "clirt");
     let n = if thorough { 400 } else { 48 };
     let nbig = if thorough { 4 } else { 1 };
@@ -308,6 +330,8 @@ pub fn suite_clirt(dir: &str, seed: u64, thorough: bool, st: &mut Stats) {
                 st.violation("C12", "compress with a stale temp file of an earlier run present gives another archive (or fails)", &replay);
             }
             if s.p("again..tmp").exists() { st.violation("C16", "the temp file is left behind", &replay); }
+            let extra: Vec<String> = s.listing().into_iter().filter(|f| f.starts_with("again") && f != "again.cba").collect();
+            if !extra.is_empty() { st.violation("C16", &format!("compress with a stale temp file present leaves {:?} besides the archive", extra), &replay); }
             let _ = std::fs::remove_file(s.p("again.cba"));
         }
         // C12: second run, input through a pipe, other buffering
@@ -534,9 +558,9 @@ pub fn suite_clirefuse(dir: &str, seed: u64, _thorough: bool, st: &mut Stats) {
     let mut cases: Vec<(String, String, String, String)> = vec![]; // (cmd, outkind, flag, archivekind)
     for cmd in ["clone", "compress"] {
         for outkind in ["absent", "regular", "regular-empty", "regular-long", "blockdev-small", "blockdev-mid", "blockdev-big"] {
-            for flag in ["none", "force", "seed-output", "verify", "verify-force"] {
+            for flag in ["none", "force", "seed-output", "verify", "verify-force", "seed-self"] {
                 for ak in ["valid", "invalid", "mismatch", "prefix-pin", "prefix-pin-63", "empty-pin", "match-pin"] {
-                    if cmd == "compress" && (flag == "seed-output" || flag.starts_with("verify") || ak != "valid" || outkind.starts_with("blockdev") || outkind == "regular-long") { continue; }
+                    if cmd == "compress" && (flag == "seed-output" || flag == "seed-self" || flag.starts_with("verify") || ak != "valid" || outkind.starts_with("blockdev") || outkind == "regular-long") { continue; }
                     if flag.starts_with("verify") && outkind == "blockdev-big" { continue; } // whole-device checksum: see DESIGN
                     cases.push((cmd.into(), outkind.into(), flag.into(), ak.into()));
                 }
@@ -560,6 +584,7 @@ pub fn suite_clirefuse(dir: &str, seed: u64, _thorough: bool, st: &mut Stats) {
             "seed-output" => args.push("--seed-output".into()),
             "verify" => args.push("--verify-output".into()),
             "verify-force" => { args.push("--verify-output".into()); args.push("--force-create".into()); }
+            "seed-self" => { args.push("--seed".into()); args.push("out.bin".into()); }
             _ => {}
         }
         if cmd == "clone" {
@@ -593,9 +618,9 @@ pub fn suite_clirefuse(dir: &str, seed: u64, _thorough: bool, st: &mut Stats) {
         st.sample(format!("{} -> exit {}", line, code));
         // expectation (C14): which cells are refusals
         let exists = outkind != "absent";
-        let refuse_exists = exists && (flag == "none" || flag == "verify");
+        let refuse_exists = exists && (flag == "none" || flag == "verify" || flag == "seed-self");
         let refuse_archive = cmd == "clone" && (ak == "invalid" || ak == "mismatch" || ak.starts_with("prefix-pin") || ak == "empty-pin");
-        let refuse_small = cmd == "clone" && (outkind == "blockdev-small" || outkind == "blockdev-mid") && flag != "none" && flag != "verify" && !refuse_archive;
+        let refuse_small = cmd == "clone" && (outkind == "blockdev-small" || outkind == "blockdev-mid") && flag != "none" && flag != "verify" && flag != "seed-self" && !refuse_archive;
         let refused = refuse_exists || refuse_archive || refuse_small;
         let state = match (&now, exists) {
             (None, false) => "absent",
@@ -919,6 +944,15 @@ pub fn suite_cliwrites(dir: &str, seed: u64, thorough: bool, st: &mut Stats) {
         let got = s.read("out.bin").unwrap_or_default();
         if code != 0 || got != c.src {
             st.violation(if inplace { "C03" } else { "C02" }, &format!("bita clone under strace does not reproduce the source (exit {}): {}", code, log.lines().last().unwrap_or("")), &replay);
+            if let Ok((ws, _)) = traced_writes(&tr, "out.bin") {
+                for (o, l) in ws {
+                    let (a, e) = (o as usize, (o + l) as usize);
+                    if e > c.src.len() || e > got.len() || got[a..e] != c.src[a..e] {
+                        st.violation("C13", &format!("the {} bytes written at {} are not the source's bytes at that offset", l, o), &replay);
+                        break;
+                    }
+                }
+            }
             return;
         }
         let (writes, truncs) = match traced_writes(&tr, "out.bin") { Ok(x) => x, Err(e) => { st.violation("C13", &format!("trace of the output file not understood: {}", e), &replay); return; } };
